@@ -221,7 +221,7 @@ class Roles:
     @property
     def optimum_updater(self) -> FuncInfo:
         def build():
-            ws = [m.func for m in self.attr_writers('best', self.method_cls)]
+            ws = [self.lift(m.func) for m in self.attr_writers('best', self.method_cls)]
             return self._unique('optimum updater', ws, 'stores Method.best outside the constructor')
         return self.memo('optimum_updater', build)
 
@@ -259,7 +259,7 @@ class Roles:
     @property
     def estimate_writer(self) -> FuncInfo:
         def build():
-            ws = [m.func for m in self.sub_writers(self.method_cls, 'M') if m.func.name != '__init__']
+            ws = [self.lift(m.func) for m in self.sub_writers(self.method_cls, 'M') if m.func.name != '__init__']
             return self._unique('estimate writer', ws, 'subscript-stores into Method.M outside the constructor')
         return self.memo('estimate_writer', build)
 
@@ -325,9 +325,53 @@ class Roles:
                     elif isinstance(a, ast.Call):
                         cands += self.pta.internal_callees(sel, a)
             cands = [c for c in cands if len(c.param_names) >= 2]
+            if not cands:
+                cands = self._new_point_by_paths(sel, item)
             return self._unique('new-point routine', cands, 'its result is the curve coordinate of the new item '
                                                             'built by the selection routine')
         return self.memo('new_point_routine', build)
+
+    def _new_point_by_paths(self, sel: FuncInfo, item: ClassInfo) -> List[FuncInfo]:
+        """The same question asked on path summaries (item construction moved into a private helper)."""
+        from .paths import Explorer, key_of
+        ex = Explorer(self.ix, self.pta)
+        out: List[FuncInfo] = []
+        for p in ex.explore(sel):
+            if p.outcome == 'raise':
+                continue
+            for ne in p.events:
+                if ne.kind != 'new' or not ne.d['cls'].is_subclass_of(item):
+                    continue
+                a = ne.d['args']
+                x = a[1] if len(a) > 1 else ne.d['kwargs'].get('x')
+                if x is None:
+                    continue
+                for ce in p.events:
+                    if ce.kind == 'call' and not ce.d.get('inlined') and ce.d.get('result') is not None and \
+                            key_of(ce.d['result']) == key_of(x):
+                        out += [c for c in ce.d['callees'] if isinstance(c, FuncInfo) and len(c.param_names) >= 2]
+        return sorted(set(out), key=lambda f: f.qualname)
+
+    @staticmethod
+    def _is_private(f: FuncInfo) -> bool:
+        return f.name.startswith('_') and not (f.name.startswith('__') and f.name.endswith('__'))
+
+    def lift(self, f: FuncInfo) -> FuncInfo:
+        """A role found (by its effect) inside a private helper belongs to the routine the helper was extracted
+        from: follow single callers of the same class / module upwards while the function is private."""
+        seen = set()
+        while self._is_private(f) and self.fq(f) not in seen:
+            seen.add(self.fq(f))
+            callers = [c for c in self.callers_of(f) if c is not f]
+            if len(callers) != 1:
+                break
+            c = callers[0]
+            same = (f.cls is None and c.module is f.module) or \
+                (f.cls is not None and c.cls is not None and (f.cls.is_subclass_of(c.cls) or c.cls.is_subclass_of(f.cls)))
+            if not same:
+                break
+            f = c
+        return f
 
     def helpers_of(self, fn: FuncInfo) -> List[FuncInfo]:
         """fn and the private helpers extracted from it (same class, reachable only through fn)."""
